@@ -818,5 +818,39 @@ def _finish_until(w, max_steps):
             pass
 
 
+def body_view(log):
+    """What the bodies of the processes themselves observe (yields, resumptions with instants and values, ends, the
+    outcomes of their own actions), without the harness's per-occurrence records and counters."""
+    out = []
+    for r in log:
+        if r[0] in ('Y', 'R', 'E', 'B'):
+            out.append((r[0], r[2]) + tuple(r[4:]))
+        elif r[0] == 'O' and len(r) > 6 and r[6] in ('succeed', 'fail', 'interrupt', 'spawn', 'chained', 'chain-again'):
+            out.append((r[0], r[2]) + tuple(r[4:]))
+        elif r[0] == 'D':
+            out.append((r[0], r[2]) + tuple(r[4:8]))
+    return out
+
+
+def unprobed_twin(case, max_steps):
+    """The same program once more, with no probe call-back on any event: a kernel that treats an event nobody has
+    subscribed to differently shows up as a different story told by the bodies. Returns None or (index, probed, bare)."""
+    c2 = dict(case)
+    c2['noprobe'] = True
+    w2 = setup_world(c2)
+    drive(w2, c2.get('drive', [['run']]), max_steps=max_steps)
+    return body_view(w2.env.log)
+
+
+def first_difference(a, b):
+    for k, (x, y) in enumerate(zip(a, b)):
+        if x != y:
+            return k, x, y
+    if len(a) != len(b):
+        k = min(len(a), len(b))
+        return k, (a[k] if k < len(a) else None), (b[k] if k < len(b) else None)
+    return None
+
+
 def excerpt(env, n=80):
     return [repr(r) for r in env.log[-n:]]
